@@ -794,8 +794,6 @@ impl Overlay {
 
         let _write_guard = nomt.access_lock.write();
 
-        let marker = self.mark_committed();
-
         {
             let mut shared = nomt.shared.lock();
             if shared.root != self.prev_root() {
@@ -805,6 +803,9 @@ impl Overlay {
                     shared.root
                 );
             }
+            // Only an overlay which is actually being committed may be marked as such: a rejected
+            // overlay must not make its descendants look like they have a committed parent.
+            let marker = self.mark_committed();
             shared.root = root;
             shared.last_commit_marker = Some(marker);
         }
@@ -852,8 +853,6 @@ impl Overlay {
             return Ok(Some(self));
         }
 
-        let marker = self.mark_committed();
-
         {
             let mut shared = nomt.shared.lock();
             if shared.root != self.prev_root() {
@@ -863,6 +862,8 @@ impl Overlay {
                     shared.root
                 );
             }
+            // See `commit`: mark as committed only once the changeset has been accepted.
+            let marker = self.mark_committed();
             shared.root = root;
             shared.last_commit_marker = Some(marker);
         }
